@@ -226,8 +226,9 @@ def plan(tier, seed):
 # ---- persistent *solver* objects and persistent user arrays (same X object across calls, possibly modified in place) ----
 
 SOLVER_REUSE = {
-    "AndersonCD": dict(kw=dict(tol=1e-8, max_epochs=500, fit_intercept=False), datafits=["Quadratic", "Logistic", "Huber"], pen="L1"),
-    "ProxNewton": dict(kw=dict(tol=1e-8, max_pn_iter=50, fit_intercept=False), datafits=["Logistic", "Quadratic"], pen="L1"),
+    "AndersonCD": dict(kw=dict(tol=1e-8, max_epochs=500, fit_intercept=False), datafits=["Quadratic", "Logistic", "Huber"], pen="L1", paths=True),
+    "ProxNewton": dict(kw=dict(tol=1e-8, max_pn_iter=50, fit_intercept=False), datafits=["Logistic", "Quadratic", "WeightedQuadratic"], pen="L1"),
+    "MultiTaskBCD": dict(kw=dict(tol=1e-8, max_epochs=500, p0=2, fit_intercept=False), datafits=["QuadraticMultiTask"], pen="L2_1", paths=True),
     "FISTA": dict(kw=dict(tol=1e-8, max_iter=200), datafits=["Quadratic", "Logistic"], pen="L1"),
     "GroupBCD": dict(kw=dict(tol=1e-8, max_iter=100, fit_intercept=False), datafits=["QuadraticGroup", "LogisticGroup"], pen="WeightedGroupL2"),
     "GramCD": dict(kw=dict(tol=1e-8), datafits=[None], pen="L1"),
@@ -261,7 +262,7 @@ def solver_play(sname, history):
             scales[op[1]] += 1
             out.append(dict(op=op, kind="scale"))
             continue
-        _, dn, key = op
+        kind_op, dn, key = op
         X = data[key]
         kind = R.KIND[dn]
         y = R.targets(kind, base[key], "quick")[0][1]
@@ -269,22 +270,43 @@ def solver_play(sname, history):
         dspec = None if dn is None else (dict(name=dn, grp_ptr=lay[0], grp_indices=lay[1]) if "Group" in dn else
                                          (dict(name=dn, delta=1.0) if dn == "Huber" else
                                           (dict(name=dn, quantile_level=0.3) if dn == "Pinball" else dict(name=dn))))
-        pspec = dict(name="L1", alpha=0.05, positive=False) if cfg["pen"] == "L1" else \
-            dict(name="WeightedGroupL2", alpha=0.05, weights=[1.0, 2.0], grp_ptr=lay[0], grp_indices=lay[1], positive=False)
+        user_sw = None
+        if dn == "WeightedQuadratic":
+            user_sw = [1.0, 2.0, 1.0, 3.0, 2.0, 1.0, 4.0, 1.0][:X.shape[0]]
+            dspec["sample_weights"] = user_sw
+        if dn == "QuadraticMultiTask":
+            y = R.targets("multi", base[key], "quick")[0][1]
+        pspec = dict(name="L1", alpha=0.05, positive=False) if cfg["pen"] == "L1" else (dict(name="L2_1", alpha=0.05) if cfg["pen"] == "L2_1" else
+            dict(name="WeightedGroupL2", alpha=0.05, weights=[1.0, 2.0], grp_ptr=lay[0], grp_indices=lay[1], positive=False))
         before = X.tobytes() + (user_dual.tobytes() if user_dual is not None else b"")
-        rec = dict(op=op, kind="solve", key=f"{sname}|{dn}|{key}|x{scales[key]}")
+        rec = dict(op=op, kind="solve", key=f"{sname}|{kind_op}|{dn}|{key}|x{scales[key]}")
+        attrs_before = json.dumps({k: (v.tolist() if hasattr(v, "tolist") else v) for k, v in vars(solver).items()}, sort_keys=True, default=str)
+        d = None
         try:
             with warnings.catch_warnings():
                 warnings.simplefilter("ignore")
                 d = build.datafit(dspec)
+                ycur = np.asfortranarray(y) if np.ndim(y) == 2 else y
                 if d is not None and hasattr(d, "initialize"):
-                    d.initialize(X, y)
+                    d.initialize(X, ycur)
                 build.seed_numba(derive_seed("c18s", sname, dn, key))
-                w, hist, sc = solver.solve(X, y, d, build.penalty(pspec))
-            rec.update(status="ok", w=np.asarray(w, dtype=float).tolist(), stop=float(sc), n=len(hist))
+                if kind_op == "path":
+                    res = solver.path(X, ycur, d, build.penalty(pspec), np.array([0.2, 0.05]))
+                    rec.update(status="ok", w=np.asarray(res[1], dtype=float).tolist(), stop=[float(v) for v in np.ravel(res[2])], n=0)
+                else:
+                    w, hist, sc = solver.solve(X, ycur, d, build.penalty(pspec))
+                    rec.update(status="ok", w=np.asarray(w, dtype=float).tolist(), stop=float(sc), n=len(hist))
         except Exception as e:
             rec.update(status="exc", exc=type(e).__name__ + ": " + str(e)[:100])
         rec["inputs_untouched"] = before == X.tobytes() + (user_dual.tobytes() if user_dual is not None else b"")
+        # the solver's own hyper-parameters and the user's sample weights (shared with the compiled datafit) are inputs too
+        attrs_after = json.dumps({k: (v.tolist() if hasattr(v, "tolist") else v) for k, v in vars(solver).items()}, sort_keys=True, default=str)
+        if attrs_after != attrs_before:
+            rec["inputs_untouched"] = False
+            rec["changed"] = "solver attributes"
+        if user_sw is not None and d is not None and not np.array_equal(np.asarray(d.sample_weights, dtype=float), np.asarray(user_sw)):
+            rec["inputs_untouched"] = False
+            rec["changed"] = "sample_weights"
         out.append(rec)
     return out
 
@@ -293,19 +315,21 @@ def run_solver_bfs(task, ctx):
     sname = task["solver"]
     cfg = SOLVER_REUSE[sname]
     ops = [("solve", dn, k) for dn in cfg["datafits"] for k in ("A", "B")] + [("scale", "A"), ("scale", "B")]
+    if cfg.get("paths"):
+        ops += [("path", cfg["datafits"][0], k) for k in ("A", "B")]
     depth = 3 if ctx.tier == "quick" else 4
     table = {}
     n = 0
     for d in range(1, depth + 1):
         for hist in itertools.product(ops, repeat=d):
-            if hist[-1][0] != "solve":
+            if hist[-1][0] not in ("solve", "path"):
                 continue
             rec = solver_play(sname, hist)[-1]
             n += 1
             ctx.transitions += 1
             params = dict(op="solver_hist", solver=sname, history=[list(o) for o in hist])
             if not rec["inputs_untouched"]:
-                ctx.violation(f"solver:{sname}.solve", "input_modified", params, "bytes of X changed", "unchanged", where=dict(solver=sname))
+                ctx.violation(f"solver:{sname}.solve", "input_modified", params, rec.get("changed", "bytes of X changed"), "unchanged", where=dict(solver=sname))
             val = json.dumps({k: rec.get(k) for k in ("status", "w", "stop", "n")}, sort_keys=True)
             first = table.setdefault(rec["key"], (val, params))
             ctx.obs(rec.get("w"), rec.get("exc"), nontrivial=rec["status"] == "ok")
